@@ -496,6 +496,51 @@ func specOracle(c *lib.Ctx, g *G, sc *lib.Script) []lib.OracleFail {
 	return fails
 }
 
+// ------------------------------------------------------------------ *time.Time: the RFC 3339 text form
+
+// timeText ties Model/CodecTime.lean to the repository: a *time.Time is encoded by the string encoder as
+// MarshalText (RFC 3339 with nanoseconds) and a String is decoded into a time.Time by time.Parse(RFC3339).
+// For random instants and zones: `pt ms sub off` compares the text, `as str <text> time` the decoded time.
+// (Values of type *time.Time inside generated types stay oracle-only: the model's type universe has no such type.)
+func timeText(c *lib.Ctx, g *G, sc *lib.Script) []lib.OracleFail {
+	var fails []lib.OracleFail
+	if _, lo := time.Now().Zone(); lo != 0 {
+		c.Hit("time-text-skipped(local zone is not UTC)")
+		return nil
+	}
+	tt := scalar("time")
+	n := c.Scale(80, 3000)
+	for i := 0; i < n; i++ {
+		t := g.val(tt, 0).Interface().(time.Time)
+		ms := t.UnixMilli()
+		sub := int64(t.Sub(time.UnixMilli(ms)))
+		_, off := t.Zone()
+		text, err := t.MarshalText()
+		line := fmt.Sprintf("pt %d %d %d", ms, sub, off)
+		c.Count("timetext:" + line)
+		c.Hit("op-pt")
+		sc.Begin()
+		if err != nil {
+			sc.Op(line, "T none")
+			continue
+		}
+		sc.Op(line, "T "+hx(text))
+		tc := tcase{op: "as", src: scalar("str"), dst: tt, v: reflect.ValueOf(string(text))}
+		o := convert(tc.v, tt, false)
+		sc.Op(tc.opLine(), o.line(false))
+		// oracle: the text parses back to the same instant in a zone with the same offset
+		if !o.decOK {
+			fails = append(fails, lib.OracleFail{Class: "time-text-error", What: "the RFC 3339 text of a time does not decode: " + o.errText + o.panicked, Replay: line})
+			continue
+		}
+		back := o.dec.Interface().(time.Time)
+		if _, boff := back.Zone(); !back.Equal(t) || boff != off {
+			fails = append(fails, lib.OracleFail{Class: "time-text-differs", What: fmt.Sprintf("%s decodes to %s", text, back.Format(time.RFC3339Nano)), Replay: line})
+		}
+	}
+	return fails
+}
+
 // ------------------------------------------------------------------ corpus
 
 func parseCase(line string) (tcase, error) {
@@ -529,7 +574,7 @@ func parseCase(line string) (tcase, error) {
 func Run(c *lib.Ctx) {
 	c.Rule = "one case = one (type, value) pair: the type is generated over the modelled universe (depth ≤ 4; structs built with reflect.StructOf carrying json tags, omitempty, inline struct, inline map, ignored fields), the value over it with boundary numbers, nils at every nullable position and arbitrary dynamic values in `any`; run as rt (direct), js (through JSON) or as (typed spec ↔ spec.Unstructured). A case is non-trivial when its type is composite or open; distinct by the full operation line (type + value)"
 	c.Assumptions = []string{
-		"field aliases are taken from explicit json tags (strcase's default naming is not modelled)",
+		"field aliases: explicit json names, or – for fields whose tag has no name part – the default alias, which the harness computes with its own snake_case implementation (ASCII identifiers) and tells the model; a different alias on the Go side is a difference",
 		"inline-map keys are disjoint from the aliases of the enclosing struct; a struct has at most one inline map and inline structs contain none (C16 well-formedness, GoType.wf)",
 		"types outside the modelled universe (channels, funcs, custom marshalers other than time.Time/time.Duration/uuid.UUID, io.Reader buffers, error values, non-string map keys) are not claimed",
 		"maps behave as dictionaries in Range order (C15) and Equal/Compare/Hash are lawful (C14)",
@@ -560,7 +605,7 @@ func Run(c *lib.Ctx) {
 			if tc.op == "js" {
 				c.Hit("js-line-compared-with-model")
 				if !tc.src.jtOK() {
-					c.Hit("js-line-outside-jtOK(correspondence only, not covered by C16.roundtrip_json_partial)")
+					c.Hit("js-line-with-omitempty-open-array-or-struct")
 				}
 			}
 		} else {
@@ -622,6 +667,7 @@ func Run(c *lib.Ctx) {
 		}
 	}
 	g.json = false
+	addFails(timeText(c, g, sc))
 	addFails(specOracle(c, g, sc))
 	if os.Getenv("VERIF_DEBUG") != "" {
 		for _, f := range fails {
